@@ -272,12 +272,15 @@ def _errors(rc: RuleCtx):
                 raise AnalysisError(f"evaluation.{name}: pre-loop code not modelled: {e}")
             it = fr.expr(loop.iter, env)
             # which local is `b` (the searched side): the other point set used in the body
-            kp = env.get("knee_points")
-            if kp is None:
-                raise AnalysisError(f"evaluation.{name}: knee_points not found")
             ktake = Vec([anf.opaque("take", c, knees, array=True) for c in pts.items], "point")
-            if not veq(kp, ktake):
-                res.violation("S6", mod, fi.name, fi.node, "knee_points is not points[knees]", _short(kp), "points[knees]", construct=f"{name} knee points")
+            kps = [nme for nme, v in env.items() if nme not in ("points", "expected") and isinstance(v, Vec) and v.kind == "point" and veq(v, ktake)]
+            if not kps:
+                res.violation("S6", mod, fi.name, fi.node, "the knee coordinates points[knees] are not what is matched against the expected points", "", "points[knees]",
+                              construct=f"{name} knee points")
+                return
+            kp = env[kps[0]]
+            env["knee_points!"] = kp
+            env["knee_points!name"] = kps[0]
             # len(points[knees]) is |K|
             table[sname] = (it, env)
         # decision table: iterated side per strategy
@@ -285,7 +288,7 @@ def _errors(rc: RuleCtx):
 
         def side(v, env):
             exp_v = env["expected"]
-            kp = env["knee_points"]
+            kp = env["knee_points!"]
             out = []
             for g, x in cases_of(v):
                 if veq(x, exp_v):
@@ -295,7 +298,6 @@ def _errors(rc: RuleCtx):
                 else:
                     out.append((g, "?"))
             return out
-        lenK = lambda env: rc.ev.length_of(env["knee_points"])  # noqa: E731
         row = {}
         for sname, (it, env) in table.items():
             ev_local = it
@@ -340,7 +342,7 @@ def _errors(rc: RuleCtx):
         if good:
             res.ok("S7", f"evaluation.{name}", "knees->K, expected->E, best->shorter side, worst->longer side")
         # the searched side must be the other set: check inside the body with a/b symbolic
-        _error_body(rc, name, fi, loop, post)
+        _error_body(rc, name, fi, loop, post, table["knees"][1]["knee_points!name"])
     if len({repr(sorted(t.items())) for t in tables.values()}) == 1:
         res.ok("S7", "evaluation.mae/mse/rmspe", "the three Strategy tables are identical")
         res.sample({"strategy_table": tables["mae"]})
@@ -360,7 +362,7 @@ def _len_of_kp(q: Rat) -> Rat:
     return b
 
 
-def _error_body(rc: RuleCtx, name: str, fi, loop, post):
+def _error_body(rc: RuleCtx, name: str, fi, loop, post, kp_name: str):
     res = rc.res
     mod = fi.module
     ev = rc.new_eval()
@@ -376,14 +378,27 @@ def _error_body(rc: RuleCtx, name: str, fi, loop, post):
     pair_names = set()
     for st in ast.walk(ast.Module(body=pre, type_ignores=[])):
         if isinstance(st, ast.Assign) and isinstance(st.targets[0], ast.Name) and isinstance(st.value, ast.Name) \
-                and st.value.id in ("knee_points", "expected"):
+                and st.value.id in (kp_name, "expected"):
             pair_names.add(st.targets[0].id)
     others = sorted(pair_names - {a_name})
     if len(others) != 1:
         raise AnalysisError(f"evaluation.{name}: cannot identify the searched side")
     b_name = others[0]
     # consistency: whenever a is E then b is K and vice versa -- checked structurally on each assignment pair
-    benv = {a_name: A, b_name: B, p_name: p, "eps": eps, "error": ev.symbol("error"), "errors": ev.symbol("errors@list")}
+    # roles: the scalar accumulator (initialised to 0 before the loop) and the list of per-coordinate errors
+    fr0 = Frame(ev, fi, 0)
+    env0 = {"points": ev.point("points", True), "knees": ev.symbol("knees", True), "expected": ev.point("expected", True),
+            "s": Obj("enum", "Strategy.expected"), "eps": eps}
+    fr0.block(pre, env0, TRUE)
+    acc_names = [n for n, v in env0.items() if isinstance(v, Rat) and v.is_zero()]
+    list_names = [n for n, v in env0.items() if isinstance(v, Vec) and v.kind == "list" and not v.items]
+    benv = {a_name: A, b_name: B, p_name: p, "eps": eps}
+    for n in acc_names:
+        benv[n] = ev.symbol("error")
+    for n in list_names:
+        benv[n] = ev.symbol("errors@list")
+    acc = acc_names[0] if len(acc_names) == 1 else "error"
+    lst = list_names[0] if len(list_names) == 1 else "errors"
     out = ev.eval_loop_body(fi, loop, benv)
     bx, by = B.items
     dist = anf.f_sqrt((bx - p.items[0]) * (bx - p.items[0]) + (by - p.items[1]) * (by - p.items[1]))
@@ -396,7 +411,7 @@ def _error_body(rc: RuleCtx, name: str, fi, loop, post):
     else:
         want_term = None
     if name in ("mae", "mse"):
-        augs = [e for e in out.events if e.kind == "aug" and e.target == "error"]
+        augs = [e for e in out.events if e.kind == "aug" and e.target == acc]
         if len(augs) == 1 and augs[0].guard.kind == "true" and augs[0].args[0] == "+" and isinstance(augs[0].args[1], Rat) \
                 and augs[0].args[1].equals(want_term):
             res.ok("S6", f"evaluation.{name}:term", f"error += {_short(want_term, 100)} at the Euclidean argmin")
@@ -405,7 +420,7 @@ def _error_body(rc: RuleCtx, name: str, fi, loop, post):
                           str([(e.args[0], _short(e.args[1])) for e in augs]), _short(want_term), construct=f"{name} error term")
         # final division
         fr = Frame(ev, fi, 0)
-        penv = {a_name: A, b_name: B, "error": ev.symbol("error")}
+        penv = {a_name: A, b_name: B, acc: ev.symbol("error")}
         fr.block(post, penv, TRUE)
         val = mk_pw(fr.returns)
         want = sym("error") / (C(2) * sym("La"))
@@ -415,14 +430,10 @@ def _error_body(rc: RuleCtx, name: str, fi, loop, post):
             res.violation("S6", mod, fi.name, fi.node, f"{name} does not divide the accumulated error by 2 * len(a)", _short(val), _short(want),
                           construct=f"{name} divisor")
         # error starts at 0
-        fr0 = Frame(ev, fi, 0)
-        env0 = {"points": ev.point("points", True), "knees": ev.symbol("knees", True), "expected": ev.point("expected", True),
-                "s": Obj("enum", "Strategy.expected")}
-        fr0.block(pre, env0, TRUE)
-        if isinstance(env0.get("error"), Rat) and env0["error"].is_zero():
+        if len(acc_names) == 1:
             res.ok("S6", f"evaluation.{name}:init", "error starts at 0")
         else:
-            res.violation("S6", mod, fi.name, fi.node, "the accumulated error does not start at 0", str(env0.get("error")), "0", construct=f"{name} init")
+            res.violation("S6", mod, fi.name, fi.node, "the accumulated error does not start at 0", str(acc_names), "0", construct=f"{name} init")
     else:
         exts = [e for e in out.events if e.kind == "extend"]
         want_vec = Vec([(p.items[0] - qx) / (p.items[0] + eps), (p.items[1] - qy) / (p.items[1] + eps)], "point")
@@ -434,7 +445,7 @@ def _error_body(rc: RuleCtx, name: str, fi, loop, post):
         fr = Frame(ev, fi, 0)
         E_ = ev.symbol("errors", True)
         ev.len_map["errors"] = sym("Le")
-        penv = {"errors": E_}
+        penv = {lst: E_}
         fr.block(post, penv, TRUE)
         val = mk_pw(fr.returns)
         want = anf.f_sqrt(anf.f_sum(E_ * E_, sym("Le")) / sym("Le"))
